@@ -67,6 +67,15 @@ func init() {
 			{ID: "R4", Desc: "Count and Items derive from the same SearchData result (T-FLOW)", Run: c02R4},
 			{ID: "R5", Desc: "QueryInput plumbing in the four client sites (T-FLOW)", Run: c02R5},
 			{ID: "R6", Desc: "index entry list rebuilt once before the loop, same direction flag (T-DOM)", Run: c02R6},
+			{ID: "R8", Desc: "the search loop visits every position: left only by exhaustion or by the page limit", Run: c02R8},
+			{ID: "R9", Desc: "index containers are reset together and kept in step (= C03.R2/R5)", Run: func(e *Engine) {
+				before := len(e.obs)
+				props["C03"].Rules[1].Run(e) // C03.R2
+				c03R5(e)
+				for i := before; i < len(e.obs); i++ {
+					e.obs[i].Rule = "R9"
+				}
+			}},
 			{ID: "R7", Desc: "expression kind ↔ text pairing (= C20.R5)", Run: func(e *Engine) {
 				before := len(e.obs)
 				c20R5(e)
@@ -674,4 +683,59 @@ func c02R6(e *Engine) {
 	})
 	same := d1 != "" && strings.Contains(d1, "QueryInput.ScanIndexForward") && strings.Contains(d2, "QueryInput.ScanIndexForward")
 	e.check(same, "R6", "core.Table.SearchData:one-direction-flag", e.ipos(sc), "entry-list order ← %s ; position arithmetic ← %s", d1, d2)
+}
+
+func c02R8(e *Engine) {
+	sd := e.fn("core", "Table.SearchData")
+	if !e.anchor("R8", "core.Table.SearchData", sd == nil) {
+		return
+	}
+	// anchor inside the loop: the per-position step (call of GetKeyAt)
+	var step ssa.Instruction
+	instrs(sd, func(in ssa.Instruction) {
+		if c, ok := in.(*ssa.Call); ok && c.Call.StaticCallee() != nil && c.Call.StaticCallee().Name() == "GetKeyAt" {
+			step = in
+		}
+	})
+	if step == nil {
+		e.undecided("R8", "core.Table.SearchData:visits-every-position", e.pos(sd.Pos()), "position step not found")
+		return
+	}
+	n, why := e.visitsEveryElement(step, func(ex loopExit) bool {
+		// the page limit: a condition computed from the request's Limit
+		if ex.cond == nil {
+			return false
+		}
+		ok := false
+		var walk func(v ssa.Value, d int)
+		walk = func(v ssa.Value, d int) {
+			if d > 4 || ok {
+				return
+			}
+			for _, o := range e.origins(v) {
+				if strings.Contains(o, "QueryInput.Limit") {
+					ok = true
+				}
+			}
+			if c, isC := v.(*ssa.Call); isC {
+				for _, a := range c.Call.Args {
+					walk(a, d+1)
+				}
+			}
+			if b, isB := v.(*ssa.BinOp); isB {
+				walk(b.X, d+1)
+				walk(b.Y, d+1)
+			}
+		}
+		walk(ex.cond, 0)
+		return ok
+	})
+	construct := "core.Table.SearchData:visits-every-position"
+	if n == 0 {
+		e.fail("R8", construct, e.ipos(step), "the position step is not inside a loop")
+	} else if why != "" {
+		e.fail("R8", construct, e.ipos(step), "%s – matching items stored after that position are missing from the result (only the page limit may end the iteration early)", why)
+	} else {
+		e.pass("R8", construct, e.ipos(step), "the loop over the key list is left only when the list is exhausted or the page limit derived from QueryInput.Limit is reached")
+	}
 }
